@@ -3,6 +3,8 @@
    Statements only. *)
 From Coq Require Import ZArith List Bool.
 From CP Require Import Core.Bytes Core.Result Prim.Mpint Spec.PL Spec.SshSpec Ssh.Record Lemmas.MpintLemmas Lemmas.SshLemmas.
+From CP Require Import Spec.Registry Lemmas.RegistryTables.
+From CPGen Require Import Tables.
 Open Scope Z_scope.
 
 (* binary packets, for EVERY payload length: packet_length counts exactly padding-length byte, payload and padding, the
@@ -42,3 +44,8 @@ Theorem C07_banner_length_formula : forall proto software comment,
   zlen (banner_prefix ++ proto ++ (cons b_dash nil) ++ software ++ match comment with Some c => b_sp :: c | None => nil end ++ (cons b_cr (cons b_lf nil)))
   = 4 + zlen proto + 1 + zlen software + match comment with Some c => 1 + zlen c | None => 0 end + 2.
 Proof. exact banner_length_formula. Qed.
+
+(* SSH message numbers and disconnect reason codes of the live library are those of RFC 4250 / RFC 4419 *)
+Theorem C07_code_points_match_registry :
+  registry_agrees int_enum_members ssh_registry = true /\ registry_covers int_enum_members ssh_registry = true.
+Proof. exact ssh_code_points. Qed.
